@@ -40,11 +40,11 @@ static const char *const kind_ext[NKINDS] = {
 
 enum { M_NONE, M_TOKDEL, M_TOKDUP, M_TOKSWAP, M_NUMPERTURB, M_KWREORDER,
        M_LINEDEL, M_LINEDUP, M_TRUNCATE, M_YAMLKIND, M_RANDBYTES, M_INSERT,
-       M_SPLICE, M_KWREPEAT, NMUT };
+       M_SPLICE, M_KWREPEAT, M_YAMLALIAS, NMUT };
 static const char *const mut_name[NMUT] = {
     "none", "tokDel", "tokDup", "tokSwap", "numPerturb", "kwReorder",
     "lineDel", "lineDup", "truncate", "yamlKind", "randBytes", "insert",
-    "splice", "kwRepeat"
+    "splice", "kwRepeat", "yamlAlias"
 };
 
 /* ------------------------------------------------------------------ seeds */
@@ -594,7 +594,7 @@ int main(int argc, char **argv)
 	buf_t in;
 
 	vt_seed(&rng, seed * 1000003ull + (uint64_t)c);
-	if (mut == M_YAMLKIND && kind < K_VNACAL)
+	if ((mut == M_YAMLKIND || mut == M_YAMLALIAS) && kind < K_VNACAL)
 	    mut = M_TOKDEL + (int)(j / nmut_plan) % 3;
 	lf_mutate(kind, mut, seedno, &rng, &in);
 	fprintf(stderr, "kind %s mut %s seed %d len %ld\n", kind_name[kind],
@@ -618,7 +618,7 @@ int main(int argc, char **argv)
 	    char cid[64];
 
 	    vt_seed(&rng, seed * 1000003ull + (uint64_t)c);
-	    if (mut == M_YAMLKIND && kind < K_VNACAL)
+	    if ((mut == M_YAMLKIND || mut == M_YAMLALIAS) && kind < K_VNACAL)
 		mut = M_TOKDEL + (int)(j / nmut_plan) % 3;
 	    lf_mutate(kind, mut, seedno, &rng, &in);
 	    snprintf(cid, sizeof(cid), "fuzz:%llu:%ld",
